@@ -216,23 +216,37 @@ def enumerate_lengths(ctx) -> None:
 def selftest(ctx) -> None:
     ccm.selftest()
     L.selftest()
-    # the literal frame of the repo's tests (recorded from a device) is delivered by the harness receiver
+
+
+def literal_frames(ctx) -> None:
+    """The literal frame of the repo's tests (recorded from a real device: 4.0.9 -> 0/4/0, GroupValueResponse 74 29 29)
+    must be delivered by a receiver holding the key - and dropped with another key."""
     raw = bytes.fromhex("29003ce0400904001103f110002446cfef4ac085e7092ab062b44d")
     spec = {"key": ccm._KEY_0_4_0, "src": 0x4009, "dst": 0x0400, "seq": 155806854986, "gap": 1}  # noqa: SLF001
-    xknx, rec = make_receiver(spec)
-    xknx.cemi_handler.handle_raw_cemi(raw)
-    got = delivered(xknx, rec)
-    assert len(got) == 1 and got[0].payload == apci.GroupValueResponse(DPTArray((116, 41, 41))) and got[0].data_secure is True, got
-    # ... and dropped with a wrong key
-    xknx, rec = make_receiver(spec, key=bytes(16))
-    xknx.cemi_handler.handle_raw_cemi(raw)
-    assert delivered(xknx, rec) == [] and xknx.connection_manager.undecoded_data_secure == 1
+    inp = {"literal": raw}
+    ctx.case(raw, nontrivial=True, cls="literal-device-frame")
+    for key, want in ((None, 1), (bytes(16), 0)):
+        xknx, rec = make_receiver(spec, key=key)
+        try:
+            xknx.cemi_handler.handle_raw_cemi(raw)
+        except Exception as e:  # noqa: BLE001
+            ctx.fail(f"C15:receiver-exc:{exc_site(e)}", inp, f"handle_raw_cemi raised {type(e).__name__}: {e}")
+            continue
+        got = delivered(xknx, rec)
+        if len(got) != want:
+            ctx.fail("C15:literal-frame:" + ("not-delivered" if want else "delivered-with-wrong-key"), inp, f"{len(got)} telegrams delivered, expected {want}")
+        elif want and (got[0].payload != apci.GroupValueResponse(DPTArray((116, 41, 41))) or got[0].data_secure is not True):
+            ctx.fail("C15:literal-frame:payload-or-flag", inp, f"{got[0]} data_secure={got[0].data_secure}")
 
 
 def run(ctx) -> None:
+    literal_frames(ctx)
     enumerate_lengths(ctx)
-    parallel(ctx, _shard, [(ctx.n(500, 12000),)] * ctx.n(8, 16))
+    parallel(ctx, _shard, [(ctx.n(400, 12000),)] * ctx.n(8, 16))
 
 
 def replay(ctx, case) -> None:
-    oracle(ctx, case)
+    if "literal" in case:
+        literal_frames(ctx)
+    else:
+        oracle(ctx, case)
